@@ -141,6 +141,51 @@ def check_fragments(texts, pk, with_comments):
     return None
 
 
+NEST_A = 'function outer(k) {\n  k();\n}\nvar cb = function(p) {\n    return p + 1;\n};\n'
+NEST_B = '\n\n      lib(0, placeholder);\n'
+
+
+def check_nested_sources(pk):
+    """sources nested A > B > A: a statement of file B spliced into a function of file A, holding a function expression
+    moved in from file A; every positioned fragment must be found at its position in the file it (effectively) names"""
+    from calmjs.parse.parsers.es5 import parse
+    A, B = parse(NEST_A), parse(NEST_B)
+    A.sourcepath = 'fileA.js'
+    outer, varstmt = list(A)[0], list(A)[1]
+    cb = list(varstmt)[0].initializer
+    bstmt = list(B)[0]
+    bstmt.sourcepath = 'fileB.js'
+    cb.sourcepath = 'fileA.js'
+    call = bstmt.expr
+    call.args.items[1] = cb
+    outer.elements.append(bstmt)
+    lines = {'fileA.js': src_lines(NEST_A), 'fileB.js': src_lines(NEST_B)}
+    effective = None
+    seen = set()
+    out = []
+    for f in mk_printer(pk)(A):
+        if f.source is not None:
+            effective = f.source
+        if not f.lineno or not f.colno:
+            continue
+        T = (f.name if f.name else f.text).strip(' ')
+        ls = lines.get(effective)
+        here = ls[f.lineno - 1][f.colno - 1:] if ls is not None and f.lineno <= len(ls) else None
+        if here is None or not here.startswith(T.split('\n')[0]):
+            if f.source is None and T in (';', '{', '}'):
+                key = K_NESTED_LAYOUT
+            else:
+                key = 'W nested sources: a %s fragment is attributed to the wrong file' % ('renamed' if f.name else 'token')
+            out.append((key, 'fragment %r (original %r) claims %s %d:%d where that file has %r' % (f.text, f.name, effective, f.lineno, f.colno, here and here[:12])))
+        seen.add(effective)
+    if seen != {'fileA.js', 'fileB.js'}:
+        out.append(('W nested sources: harness', 'nested-source harness did not see fragments of both files: %r' % sorted(seen)))
+    return out
+
+
+K_NESTED_LAYOUT = 'W: a positioned layout fragment (; { }) that follows a nested sub-tree of another source file carries no source of its own'
+
+
 def _prog_job(chunk):
     sp = _TL['sp']
     bad = []
@@ -164,6 +209,9 @@ def _prog_job(chunk):
 
 def replay(d):
     w = d['input']
+    if 'nested' in w:
+        msgs = [m for k, m in check_nested_sources(w['nested']) if k == w.get('key', k)]
+        return bool(msgs), 'nested sources A > B > A, %s printer: %s' % (w['nested'], '; '.join(msgs[:2]) or 'ok')
     try:
         msg = check_fragments(w['texts'], w['printer'], w['with_comments'])
     except Exception as e:
@@ -280,6 +328,16 @@ def main():
         if not confirmed:
             run.inconclusive_('per-production obligation failed (%s) but the replay programs do not exhibit it' % msg)
     run.leg('W_whole_programs', token_strings=len(words), runs=nprog)
+    boot.load_plain()
+    for pk in PRINTERS:
+        for key in sorted({k for k, m in check_nested_sources(pk)}):
+            rpd = {'property': 'C08', 'input': {'nested': pk, 'key': key}}
+            ok, detail = rp.run_in_subprocess(rpd)
+            if ok:
+                run.violation(key, detail[:400], rpd)
+            else:
+                run.inconclusive_('nested-source failure did not reproduce: %s' % key)
+    run.leg('W_nested_sources', printers=len(PRINTERS))
     run.leg('observations_beyond_the_property', items=sorted(observations)[:20])
     run.coverage.update({
         'explanation': 'S: node built by every real p_* action from symbolic slot positions, printed by the real pretty/minify/obfuscating printers; z3 decides '
